@@ -104,6 +104,100 @@ func main() {
 		if err := os.MkdirAll(odir, 0777); err != nil {
 			die("%v", err)
 		}
+		// package-level variables are re-initialised before every simulation
+		// (scipipe keeps loggers, flags, counters in globals; one worker process
+		// runs many simulations): SimResetGlobals re-assigns each of them its
+		// declared initial value, or the zero value.
+		var reset bytes.Buffer
+		fmt.Fprintf(&reset, "package %s\n\n", tpkg.Name())
+		resetImports := map[string]string{}
+		var resetBody bytes.Buffer
+		for i, f := range files {
+			_ = i
+			for _, d := range f.Decls {
+				gd, ok := d.(*ast.GenDecl)
+				if !ok || gd.Tok != token.VAR {
+					continue
+				}
+				for _, sp := range gd.Specs {
+					vs := sp.(*ast.ValueSpec)
+					var lhs []string
+					blank := true
+					for _, n := range vs.Names {
+						lhs = append(lhs, n.Name)
+						if n.Name != "_" {
+							blank = false
+						}
+					}
+					if blank {
+						continue
+					}
+					if len(vs.Values) > 0 {
+						var rhs []string
+						for _, v := range vs.Values {
+							var b bytes.Buffer
+							format.Node(&b, fset, v)
+							rhs = append(rhs, b.String())
+							ast.Inspect(v, func(x ast.Node) bool {
+								if se, ok := x.(*ast.SelectorExpr); ok {
+									if id, ok := se.X.(*ast.Ident); ok {
+										if pn, ok := info.Uses[id].(*types.PkgName); ok {
+											resetImports[id.Name] = pn.Imported().Path()
+										}
+									}
+								}
+								return true
+							})
+						}
+						fmt.Fprintf(&resetBody, "\t%s = %s\n", strings.Join(lhs, ", "), strings.Join(rhs, ", "))
+					} else if vs.Type != nil {
+						var b bytes.Buffer
+						format.Node(&b, fset, vs.Type)
+						ast.Inspect(vs.Type, func(x ast.Node) bool {
+							if se, ok := x.(*ast.SelectorExpr); ok {
+								if id, ok := se.X.(*ast.Ident); ok {
+									if pn, ok := info.Uses[id].(*types.PkgName); ok {
+										resetImports[id.Name] = pn.Imported().Path()
+									}
+								}
+							}
+							return true
+						})
+						for _, n := range vs.Names {
+							if n.Name == "_" {
+								continue
+							}
+							fmt.Fprintf(&resetBody, "\t{\n\t\tvar z %s\n\t\t%s = z\n\t}\n", b.String(), n.Name)
+						}
+					}
+				}
+			}
+		}
+		if len(resetImports) > 0 {
+			reset.WriteString("import (\n")
+			var ks []string
+			for k := range resetImports {
+				ks = append(ks, k)
+			}
+			sort.Strings(ks)
+			for _, k := range ks {
+				p := resetImports[k]
+				if np, ok := swap[p]; ok {
+					p = np
+				}
+				fmt.Fprintf(&reset, "\t%s %q\n", k, p)
+			}
+			reset.WriteString(")\n\n")
+		}
+		reset.WriteString("// SimResetGlobals is generated by verif/rewriter.\nfunc SimResetGlobals() {\n")
+		reset.Write(resetBody.Bytes())
+		reset.WriteString("}\n")
+		if src, err := format.Source(reset.Bytes()); err == nil {
+			os.WriteFile(filepath.Join(odir, "zz_sim_reset.go"), src, 0666)
+		} else {
+			os.WriteFile(filepath.Join(odir, "zz_sim_reset.go.broken"), reset.Bytes(), 0666)
+			die("generated reset file for %s does not parse: %v", p.path, err)
+		}
 		for i, f := range files {
 			rw := &rewriter{fset: fset, info: info, file: names[i], pkg: tpkg, counts: map[string]int{}}
 			rw.rewriteFile(f)
